@@ -45,7 +45,9 @@ def probs_of(G):
 class Pairing:
     def __init__(self, G, gname, fine=False):
         self.G, self.gname = G, gname
-        self.cases = position_cases(fine)
+        # a post-processing helper introduces comparisons between successor indices: the coarse partition is exact only
+        # for the comparisons of the builders, so the finer one (W in {1,2,3,>=4}) is used then
+        self.cases = position_cases(fine or getattr(G, "post", None) is not None)
         self.role_block = {"Light": 0}
         self.tail = {}
         self.nb = len(G.blocks)
@@ -153,6 +155,11 @@ class Pairing:
         """[(label str | prob Poly, target Poly)]"""
         if entry is None:
             raise Undecided("no entry appended for this tile")
+        if entry[0] == "pyentry":
+            out = []
+            for k, tp in entry[1]:
+                out.append((k, tp))
+            return out
         if entry[0] != "list":
             raise Undecided("entry `%s` is not a list display" % show(entry)[:80])
         out = []
@@ -326,8 +333,13 @@ def structure_rules(ctx, chk, G, gname, pairing, rule="C08.2"):
             chk.violation(rule, where, "game %s: tail state %d missing" % (gname, k), expected="two tail states", found=len(G.tail), construct="%s tail missing" % gname)
             continue
         t = G.tail[k]
-        ok = t[0] == "list" and len(t[1]) == 1 and t[1][0][0] == "tup" and t[1][0][1][0] == C(1) \
-            and (ce.poly(t[1][0][1][1]) - (pairing.nb * n + k)).is_zero()
+        try:
+            items = G.tail_entry(k, case)
+        except Undecided as e:
+            chk.undecided(rule, where, str(e))
+            continue
+        ok = items is not None and len(items) == 1 and isinstance(items[0][0], Poly) and (items[0][0] - 1).is_zero() \
+            and (items[0][1] - (pairing.nb * n + k)).is_zero()
         owner = at_tail(pseg, k)
         rew = at_tail(rseg, k)
         if ok and owner == C(PR) and rew == C(0):
@@ -402,6 +414,8 @@ def run(ctx, chk):
     for gname, p in ps.items():
         structure_rules(ctx, chk, p.G, gname, p)
     argument_swap_rule(ctx, chk)
+    from . import C11
+    C11.r5_manual_entry(ctx, chk, "C08.4")      # the manual entry point hands the board and the probabilities on unchanged
     _canary(ctx, chk)
     chk.require_instances("C08.1", 3)
     chk.require_instances("C08.2", 20)
